@@ -36,7 +36,6 @@ F_D14 = 'D14'
 F_PEPSIN = 'D14b-lookbehind'
 F_ADJ = 'C01-nola-adjacent-sites'
 F_FUSCRASH = 'C01-fusion-expand-crash'
-F_ENDINCL = 'C01-end-inclusion-crash'
 F_FUSJUNC = 'C02-fusion-junction-indel'
 
 # ------------------------------------------------------------------ rule classes (from the repo's table)
@@ -165,12 +164,6 @@ def is_fusion_crash(ev):
     r = ev.exc or {}
     return (bool(ev.case.get('fusions')) and r.get('__exc__') == 'ValueError'
             and 'expand_alignments' in r.get('tb', '') and 'call_peptide_fusion' in r.get('tb', ''))
-
-def is_end_inclusion_crash(ev):
-    """callVariant aborts in VariantRecord.to_end_inclusion (IndexError): an indel anchored on the last base of the
-    start codon (or at position 2 of a non-coding transcript) reaches the end of the transcript sequence"""
-    r = ev.exc or {}
-    return r.get('__exc__') == 'IndexError' and 'to_end_inclusion' in r.get('tb', '')
 
 def _cds_end(case, tx_id):
     g, t = _tx_of(case, tx_id)
